@@ -56,6 +56,15 @@ def fixed_runs():
     ]
 
 
+def fixed_chains():
+    """runs executed one after the other in ONE process under the SAME title and results directory, as
+    run_model_no_trade does for every country of a simulation: the table on disk must be the last result"""
+    return [
+        [("ARG", opt()), ("ARG", opt(waste="zero"))],
+        [("LUX", opt(**BASELINE)), ("LUX", opt(**BASELINE)), ("CYP", opt(**BASELINE, NMONTHS=60))],
+    ]
+
+
 def random_run(rng, all_codes):
     iso = rng.choice([c for c in COUNTRIES if c in all_codes] if rng.random() < 0.5 else all_codes)
     kw = {}
@@ -300,14 +309,22 @@ def real_runs(ctx, coq=True):
     for _ in range(nrand):
         specs.append(random_run(rng, all_codes))
     runs = [{"iso3": iso, "opt": o, "title": f"c04_{i}_{iso}"} for i, (iso, o) in enumerate(specs)]
+    chains = fixed_chains()
+    for _ in range(0 if ctx.quick else 25):
+        chains.append([random_run(rng, all_codes) for _ in range(rng.choice([2, 2, 3]))])
+    for j, ch in enumerate(chains):
+        runs.append({"chain": [{"iso3": iso, "opt": o, "title": f"c04_same_title_{j}"} for iso, o in ch]})
     want = 4 if ctx.quick else 30
     res = ctx.run_impl("c04_audit", {"runs": runs, "want_data": want, "procs": lib.NCPU if not ctx.quick else 6})["runs"]
     terms, meta = [], []
     stats = {"runs": len(runs), "rounds": 0, "failed_runs": 0, "to_humans": 0, "to_animals": 0, "seaweed": 0, "scp": 0, "cs": 0,
              "split_both": 0, "max_rel_below_optimum": 0.0, "horizons": {}}
     failed = []
+    stats["same_title_chains"] = len(chains)
     for run_ in res:
-        spec = run_["spec"]
+        whole = run_["spec"]
+        links = whole["chain"] if "chain" in whole else [whole]
+        spec = links[-1] if run_["error"] else links[0]
         if run_["error"]:
             stats["failed_runs"] += 1
             failed.append({"iso3": spec["iso3"], "scenario": spec["opt"]["scenario"], "error": run_["error"][:160]})
@@ -317,8 +334,9 @@ def real_runs(ctx, coq=True):
                 # the reporting chain itself refused a solved round (or a run of the fixed pool no longer completes)
                 ctx.violation(f"C04:run-rejected@{site or 'run'}",
                               f"{spec['iso3']} {spec['opt']['scenario']}: {run_['error'][:200]}",
-                              {"kind": "counterexample", "spec": spec, "trace": tr[-800:]})
+                              {"kind": "counterexample", "spec": whole, "trace": tr[-800:]})
         for rd in run_["rounds"]:
+            spec = links[rd.get("chain_pos", 0)]
             stats["rounds"] += 1
             stats[rd["ty"]] += 1
             nt = rd["nontrivial"]
@@ -328,7 +346,8 @@ def real_runs(ctx, coq=True):
             stats["horizons"][str(rd["n"])] = stats["horizons"].get(str(rd["n"]), 0) + 1
             if rd["ty"] == "to_humans" and rd["pfm"] > 0:
                 stats["max_rel_below_optimum"] = max(stats["max_rel_below_optimum"], (rd["pfm"] - rd["head"]) / rd["pfm"])
-            ctx.count(("round", spec["iso3"], spec["opt"], rd["title"][-6:]), nontrivial=nt["foods"] >= 4)
+            ctx.count(("round", spec["iso3"], spec["opt"], rd["title"][-6:], rd.get("chain_pos", 0), "chain" in whole),
+                      nontrivial=nt["foods"] >= 4)
             for f in rd["failures"][:3]:
                 if f["kind"] == "optimum-near-zero":
                     # solver feasibility tolerance at a near-zero optimum: a finding only when the lead lists it
@@ -338,10 +357,11 @@ def real_runs(ctx, coq=True):
                         ctx.notes["solver_tolerance_cases"].append({"iso3": spec["iso3"], "opt": spec["opt"], "what": f["what"]})
                     if any(k["key"] == NEAR_ZERO_KEY for k in ctx.known):
                         ctx.violation(NEAR_ZERO_KEY, f"{rd['title']}: {f['what']}",
-                                      {"kind": "counterexample", "spec": spec, "round": rd["title"], "failure": f})
+                                      {"kind": "counterexample", "spec": whole, "round": rd["title"], "failure": f})
                     continue
                 ctx.violation(f"C04:{f['kind']}@{key_site(f['kind'])}", f"{rd['title']} ({rd['ty']}): {f['what']}",
-                              {"kind": "counterexample", "spec": spec, "round": rd["title"], "failure": f})
+                              {"kind": "counterexample", "spec": whole, "round": rd["title"],
+                               "run_in_chain": rd.get("chain_pos", 0), "failure": f})
             if "data" in rd and coq:
                 d = rd["data"]
                 terms.append(coq_case(d["n"], d["km"], d["settings"], d["sw_kcals"], d["vars"], d["series"], d["obs"], 0))
@@ -365,7 +385,7 @@ def real_runs(ctx, coq=True):
                               {"kind": "tie-broken", "spec": spec, "round": rd["title"], "code": code})
     ctx.notes["correspondence_captured"] = {"rounds": len(terms), "disagreements": nbad}
     for run_ in res[:2]:
-        if run_["rounds"]:
+        if run_["rounds"] and "chain" not in run_["spec"]:
             rd = run_["rounds"][-1]
             ctx.sample({"run": {"iso3": run_["spec"]["iso3"], "scenario": run_["spec"]["opt"]["scenario"],
                                 "NMONTHS": run_["spec"]["opt"]["NMONTHS"]},
